@@ -331,13 +331,18 @@ C07Ret(m, e) ==
     \cup V(\A c \in AllIn(m) : Done(m, c) /\ ~m.ch[c].ok, "C07", <<"race_ok Pending although every child failed">>)
   ELSE V(TRUE, "C07", <<"race_ok returned", e.r>>)
 
+\* merge: every item exactly once, per-input order kept, an item in hand is yielded rather than Pending / None
+\* (an implementation may take items from several inputs in one poll and hand them out one per poll: only what
+\* the property states is demanded)
 C08Ret(m, e) ==
   IF m.fam # "merge" THEN {} ELSE
-  LET somes == PcSome(m) IN
-     V(Cardinality(somes) > 1, "C08", <<"merge took more than one item in one poll">>)
-  \cup V(somes # {} /\ (e.r # "some" \/ e.v # m.pc[CHOOSE i \in somes : TRUE].v),
-         "C08", <<"an input's item was not yielded by the poll that took it", e.r, e.v>>)
-  \cup V(e.r = "some" /\ somes = {}, "C08", <<"merge yielded an item no input produced in this poll", e.v>>)
+  LET undeliv(c) == Len(m.ch[c].items) - m.ch[c].deliv
+      y == IF e.r = "some" /\ e.v \in m.prod THEN m.vown[e.v] ELSE -1 IN
+     V(e.r = "some" /\ y = -1, "C08", <<"merge yielded an item no input produced", e.v>>)
+  \cup V(y >= 0 /\ (undeliv(y) = 0 \/ m.ch[y].items[m.ch[y].deliv + 1] # e.v),
+         "C08", <<"an input's items were yielded twice or out of order", e.v>>)
+  \cup V(e.r \in {"pending", "none"} /\ \E c \in AllIn(m) : undeliv(c) > 0,
+         "C08", <<"merge returned without yielding an item that an input had produced", e.r>>)
   \cup V(e.r = "none" /\ \E c \in AllIn(m) : ~Done(m, c), "C08", <<"merge ended before every input ended">>)
   \cup V(e.r = "pending" /\ \A c \in AllIn(m) : Done(m, c), "C08", <<"merge Pending although every input ended">>)
 
